@@ -222,6 +222,13 @@ Theorem C11_union_emitted_partial : forall co ms d, Forall wf_mspec ms ->
 Proof. intros. rewrite emit_correct by assumption. apply union_decode_partial; assumption. Qed.
 Print Assumptions C11_union_emitted_partial.
 
+(* exception classes: whatever the member expressions raise, the only exception that leaves the emitted
+   union method is its own final raise (ValueError(value) / InvalidFieldValue), exactly when no member accepts *)
+Theorem C11_union_raise_class : forall co ms d, Forall wf_mspec ms ->
+  run_lines_x co (emit ms) d = match union_dec co (map to_member ms) d with Some x => XRet x | None => XValueError end.
+Proof. exact emit_raise_class. Qed.
+Print Assumptions C11_union_raise_class.
+
 Example C11_emit_nonvacuous :
   let ms := [SM KInt; NM 0 false w_date; SM KNone; NM 0 false w_date; NM 1 true Some] in
   Forall wf_mspec ms /\
